@@ -1030,10 +1030,11 @@ impl SecureMemoryPool {
             .local_caches
             .get_or(|| RefCell::new(LocalCache::new(self.config.local_cache_size)));
 
-        if local_cache.borrow_mut().try_push(chunk).is_err() {
-            // Local cache full, try global stack
-            // SAFETY: try_push() just failed at line 992, guaranteeing cache has at least one element
-            let chunk = local_cache.borrow_mut().try_pop().unwrap();
+        // try_push() hands the chunk back when the local cache is full: it must be
+        // kept (SecureChunk has no Drop, discarding it leaks the memory for good)
+        let rejected = local_cache.borrow_mut().try_push(chunk);
+        if let Err(chunk) = rejected {
+            // Local cache full, return the chunk to the global stack
             self.global_stack.push(chunk);
         }
 
